@@ -28,11 +28,13 @@ use std::net::{IpAddr, SocketAddr};
 static mut SPEAKS: [bool; 5] = [false; 5];
 static mut CALLS: [u8; 8] = [0xff; 8];
 static mut N_CALLS: usize = 0;
+static mut PORTS: [u16; 8] = [0; 8];
 
-fn record(i: u8) -> bool {
+fn record_at(i: u8, a: &SocketAddr) -> bool {
     unsafe {
         if N_CALLS < 8 {
             CALLS[N_CALLS] = i;
+            PORTS[N_CALLS] = a.port();
         }
         N_CALLS += 1;
         SPEAKS[i as usize]
@@ -54,15 +56,15 @@ fn java_like(label: Server) -> JavaResponse {
     }
 }
 
-pub fn stub_java(_a: &SocketAddr, _t: Option<TimeoutSettings>, _r: Option<RequestSettings>) -> GDResult<JavaResponse> {
-    if record(0) {
+pub fn stub_java(a_: &SocketAddr, _t: Option<TimeoutSettings>, _r: Option<RequestSettings>) -> GDResult<JavaResponse> {
+    if record_at(0, a_) {
         Ok(java_like(Server::Java))
     } else {
         Err(K::PacketReceive.into())
     }
 }
-pub fn stub_bedrock(_a: &SocketAddr, _t: Option<TimeoutSettings>) -> GDResult<BedrockResponse> {
-    if record(1) {
+pub fn stub_bedrock(a_: &SocketAddr, _t: Option<TimeoutSettings>) -> GDResult<BedrockResponse> {
+    if record_at(1, a_) {
         Ok(BedrockResponse {
             edition: "e".to_string(),
             name: "n".to_string(),
@@ -79,22 +81,22 @@ pub fn stub_bedrock(_a: &SocketAddr, _t: Option<TimeoutSettings>) -> GDResult<Be
         Err(K::PacketReceive.into())
     }
 }
-pub fn stub_l16(_a: &SocketAddr, _t: Option<TimeoutSettings>) -> GDResult<JavaResponse> {
-    if record(2) {
+pub fn stub_l16(a_: &SocketAddr, _t: Option<TimeoutSettings>) -> GDResult<JavaResponse> {
+    if record_at(2, a_) {
         Ok(java_like(Server::Legacy(LegacyGroup::V1_6)))
     } else {
         Err(K::PacketReceive.into())
     }
 }
-pub fn stub_l14(_a: &SocketAddr, _t: Option<TimeoutSettings>) -> GDResult<JavaResponse> {
-    if record(3) {
+pub fn stub_l14(a_: &SocketAddr, _t: Option<TimeoutSettings>) -> GDResult<JavaResponse> {
+    if record_at(3, a_) {
         Ok(java_like(Server::Legacy(LegacyGroup::V1_4)))
     } else {
         Err(K::PacketReceive.into())
     }
 }
-pub fn stub_lb18(_a: &SocketAddr, _t: Option<TimeoutSettings>) -> GDResult<JavaResponse> {
-    if record(4) {
+pub fn stub_lb18(a_: &SocketAddr, _t: Option<TimeoutSettings>) -> GDResult<JavaResponse> {
+    if record_at(4, a_) {
         Ok(java_like(Server::Legacy(LegacyGroup::VB1_8)))
     } else {
         Err(K::PacketReceive.into())
@@ -111,11 +113,34 @@ fn autodetect(which: u8) {
         SPEAKS = speaks;
     }
     let addr = any_addr_v4();
+    let port_opt: Option<u16> = if kani::any() { Some(addr.port()) } else { None };
     let r = match which {
         0 => minecraft::protocol::query(&addr, None, None),
-        1 => minecraft::query(&addr.ip(), Some(addr.port())),
+        1 => minecraft::query(&addr.ip(), port_opt),
         _ => minecraft::protocol::query_legacy(&addr, None),
     };
+    // every variant is asked at the caller's port, or at that variant's default
+    // port (Java / legacy 25565, Bedrock 19132) when none is given
+    let mut k = 0;
+    while k < unsafe { N_CALLS } && k < 8 {
+        let variant = unsafe { CALLS[k] };
+        let want = if which == 1 {
+            match port_opt {
+                Some(p) => p,
+                None => {
+                    if variant == 1 {
+                        19132
+                    } else {
+                        25565
+                    }
+                }
+            }
+        } else {
+            addr.port()
+        };
+        assert!(unsafe { PORTS[k] } == want);
+        k += 1;
+    }
     let first_variant: usize = if which == 2 { 2 } else { 0 };
     // reference: first speaking variant at or after first_variant
     let mut first = 5usize;
